@@ -183,6 +183,7 @@ def run(ck, F, E):
                    "the interpreter is installed before the --skip-check branch", "whether the static check runs now changes which "
                    "interpreter is used", ls.span)
     n_sites = 0
+    via = set()
     for b in F.bodies.values():
         if b.crate != "abasic":
             continue
@@ -210,6 +211,7 @@ def run(ck, F, E):
                     if w == {"enable_warnings", "enable_tracing"}:
                         configured = True
                         how = "followed on every path by writes of enable_warnings / enable_tracing from the arguments"
+            via.add("create" if "create_interpreter" in how else "configure")
             fn = b.path.split("::")[-1]
             ck.require(configured, "C15:CONFIG:StdioInterpreter::%s" % fn, "R-CONFIG", how,
                        "%s installs an interpreter that never receives the command-line options: `abasic -w -t FILE` behaves "
@@ -227,6 +229,22 @@ def run(ck, F, E):
                     w.add(fs[-1]["name"])
         ck.require(w == {"enable_warnings", "enable_tracing"}, "C15:CONFIG:options-applied", "R-CONFIG",
                    "warnings -> enable_warnings, tracing -> enable_tracing", "the options are applied as %s" % sorted(w), cf.span)
+    # "with or without the static check": `abasic FILE` refuses to run a file the checker objects to, so the checker must not
+    # object to operand kinds the interpreter accepts (NOT of a string, comparisons of strings, ..): C06's kind tables,
+    # filed under this property as well
+    import framework
+    from props import C06
+    C06.kinds(framework.Rekeyed(ck, "C06", "C15:CHECK"), F, E)
+    # the generator's seed is part of what both modes share: if some interpreter is set up through configure_interpreter alone
+    # (the one a loaded file yields), every randomize() of the CLI must sit in configure_interpreter too -- seeding only the
+    # interpreters that create_interpreter builds makes `abasic FILE` draw a different RND sequence than the piped session
+    rz_homes = sorted({b.path.split("::")[-1] for b in F.bodies.values() if b.crate == "abasic"
+                       for c in b.calls() if c.callee.endswith("Interpreter::randomize")})
+    if "configure" in via and F.one("CliArgs::configure_interpreter", "abasic") is not None:
+        ck.require(all(h == "configure_interpreter" for h in rz_homes), "C15:CONFIG:seeding-shared", "R-CONFIG",
+                   "randomize() is called from %s only" % (rz_homes or "nowhere"),
+                   "the CLI seeds the generator in %s, but the interpreter of a loaded file is set up through configure_interpreter "
+                   "alone: file mode and the piped session start from different generator states" % rz_homes)
     # ---- (3b) both modes show everything the program printed: the CLI's line buffer is empty at every successful exit
     cli_flush_rule(ck, F)
 
